@@ -25,6 +25,14 @@ CHECKS = [
      "text": "Bounded symbolic model checking of configuration handling: for every documented linter section (18) in both key spellings the real key normalisation + Orchestrator + rule run on its trigger file with `enabled` a solver boolean (false => silent, true => default findings); thresholds a <= b as solver integers for monotonicity and rejection of non-positive values; command-line threshold overrides against file values and per-language sections with all values unbounded solver integers; carriers (.thailint.yaml/.json/pyproject) and their discovery order, top-level ignore list and malformed carriers explored by forking through library and CLI.",
      "note": "Trusted: z3, proxy ints/bools, the documented section names and trigger catalogue. The YAML/JSON/TOML parsers are outside the solver's reach: carriers are explored concretely (forked), not symbolically. `--config FILE` carriers are covered for error handling only (C06). Nine defects repaired by fix: commits.",
      "technique": TECH},
+    {"property_id": "C03", "design_ref": "DESIGN.md §4 C03",
+     "text": "Bounded symbolic model checking of the whole DRY pipeline (tokeniser, rolling windows, sqlite storage, de-overlap, min_occurrences, message builder) on generated 1-4 file Python/TS/JS projects with planted duplicate runs: min_occurrences is an unbounded solver integer (the report/silence verdict is decided for all values), window size, run length, multiplicity, offsets, indentation, interleaved comments/blank lines and periodic (self-overlapping) runs are forked; soundness (named locations hold identical normalised code), mutuality, completeness and the occurrence count are asserted on every path.",
+     "note": "Trusted: z3, proxy ints, the statement pool (unique fillers), the independent normaliser of the oracle. Hash collisions assumed away. Block filters / duplicate-constants sub-feature outside the claim.",
+     "technique": TECH},
+    {"property_id": "C04", "design_ref": "DESIGN.md §4 C04",
+     "text": "Bounded symbolic model checking of suppression handling: rule-name matching for every rule id x spelling kind x letter-case mask x entry point; directive scope arithmetic of the real IgnoreDirectiveParser with the violation line a solver integer (same-line / next-line / block / file forms, both comment styles, both tool words, naming own or another rule); and every linter's trigger file through the real Orchestrator with each directive form inserted (named rule suppressed exactly, other-rule and out-of-scope directives change nothing).",
+     "note": "Trusted: z3, proxy ints, the documented scope table, the trigger catalogue. Directives inside string literals / block comments and per-linter ignore path patterns are outside the claim (repository ignore lists are covered in C05/C14). Five defects repaired by fix: commits.",
+     "technique": TECH},
 ]
 
 DONE = {int(c['property_id'][1:]) for c in CHECKS} | {19}
